@@ -87,6 +87,13 @@ func multiValue(c *core.Ctx) {
 						}
 						if vals != nil && astx.Mentions(info, rhs, vals) {
 							problems = append(problems, fmt.Sprintf("%s = %s does not transfer the whole value slice", types.ExprString(l), types.ExprString(rhs)))
+							continue
+						}
+						// a header slot written inside the loop from something else (a filtered or rebuilt copy)
+						if kobj != nil && astx.Mentions(info, ie.Index, kobj) {
+							if _, isConst := astx.ConstString(info, rhs); !isConst {
+								problems = append(problems, fmt.Sprintf("%s = %s stores something other than the source's whole value slice", types.ExprString(l), types.ExprString(rhs)))
+							}
 						}
 					}
 				case *ast.RangeStmt:
